@@ -31,7 +31,7 @@ type C07Case struct {
 	FracSeed uint64      `json:"frac_seed"` // 0: exact multiples
 }
 
-var c07Ops = []string{"boolop", "wrapper", "engine", "engineOC", "polytree", "inflate", "minkSum", "minkDiff",
+var c07Ops = []string{"boolop", "wrapper", "engine", "engineOC", "polytree", "polytreeOC", "inflate", "minkSum", "minkDiff",
 	"rectclip", "rectclipSingle", "rectlines", "rectlinesSingle", "rectTies", "rectlinesTies", "trim", "badPrecision"}
 
 func drawC07(t *rapid.T) *C07Case {
@@ -229,6 +229,53 @@ func judgeC07(c *C07Case, cx *Ctx) (v *Violation) {
 			}
 		}
 		cx.St.Eval(c, p != 2 || c.FracSeed != 0, "op:"+c.Op, precLabel(c.Prec), boolLabel("fractions", c.FracSeed != 0))
+		return nil
+	case "polytreeOC":
+		// engine objects, open subjects, tree form: tree AND open paths must be those of the 64-bit engine
+		e := c2.NewClipperD(p)
+		e64 := c2.NewClipper64()
+		e.AddPaths(subjD, c2.Subject, true)
+		e64.AddPaths(c.Subj, c2.Subject, true)
+		e.AddPaths(clipD, c2.Clip, false)
+		e64.AddPaths(c.Clip, c2.Clip, false)
+		td, t64 := c2.NewPolyTreeD(), c2.NewPolyTree64()
+		gopen, wopenD := c2.PathsD{}, c2.PathsD{}
+		ok1 := e.ExecutePolyTreeD(c.CT, c.FR, td, &gopen)
+		ok2 := e64.ExecutePolyTree64(c.CT, c.FR, t64, &wopenD)
+		if ok1 != ok2 {
+			return violf("ClipperD(%d).ExecutePolyTreeD returned %v, Clipper64.ExecutePolyTree64 %v", p, ok1, ok2)
+		}
+		wopen := make(Paths, len(wopenD))
+		for i, pth := range wopenD {
+			for _, q := range pth {
+				if q.X != math.Round(q.X) || q.Y != math.Round(q.Y) {
+					return violf("Clipper64.ExecutePolyTree64 returned a non-integer open-path coordinate %v", q)
+				}
+				wopen[i] = append(wopen[i], P{X: int64(q.X), Y: int64(q.Y)})
+			}
+		}
+		if d := sameScaled(gopen, wopen, scale); d != "" {
+			return violf("ClipperD(%d).ExecutePolyTreeD open paths differ from Clipper64.ExecutePolyTree64 on the quantised input: %s (D: %v, 64-bit: %v)", p, d, gopen, wopen)
+		}
+		// the open part must also be what the flat form of the 64-bit engine gives (C09 judges its geometry)
+		e64b := c2.NewClipper64()
+		e64b.AddPaths(c.Subj, c2.Subject, true)
+		e64b.AddPaths(c.Clip, c2.Clip, false)
+		fc, fo := Paths{}, Paths{}
+		e64b.ExecuteOC(c.CT, c.FR, &fc, &fo)
+		if d := sameScaled(gopen, fo, scale); d != "" {
+			return violf("ClipperD(%d).ExecutePolyTreeD open paths differ from Clipper64.ExecuteOC's open solution on the quantised input: %s", p, d)
+		}
+		a, b := flattenTree(td.PolyPathBase), flattenTree(t64.PolyPathBase)
+		if len(a) != len(b) {
+			return violf("ExecutePolyTreeD(precision %d) has %d nodes, ExecutePolyTree64 on the quantised input %d", p, len(a), len(b))
+		}
+		for i := range a {
+			if a[i].parent != b[i].parent || !kit.PathsEqual(Paths{a[i].poly}, Paths{b[i].poly}) {
+				return violf("ExecutePolyTreeD(precision %d) node %d differs from the 64-bit tree", p, i)
+			}
+		}
+		cx.St.Eval(c, len(gopen) > 0, "op:"+c.Op, precLabel(c.Prec), boolLabel("fractions", c.FracSeed != 0), boolLabel("open-result-nonempty", len(gopen) > 0))
 		return nil
 	case "inflate":
 		opts := []c2.InflateOption{c2.WithArcTolerance(c.ArcTol)}
